@@ -133,10 +133,143 @@ pub fn ints(v: &[i64]) -> String {
 
 /// Run one op under catch_unwind; a panic is the canonical result `PANIC`.
 pub fn guarded(exec: &dyn Fn(&Op) -> String, op: &Op) -> String {
+    let t0 = std::time::Instant::now();
     let r = panic::catch_unwind(panic::AssertUnwindSafe(|| exec(op)));
+    let dt = t0.elapsed();
+    if dt.as_millis() > 2000 {
+        // "promptly": anything slower than 2 s on these small inputs is reported as a hang
+        return format!("HANG:{}ms", dt.as_millis());
+    }
     match r {
         Ok(s) => s,
         Err(_) => "PANIC".to_string(),
+    }
+}
+
+/// Mutate one argument.  If the argument is valid UTF-8 the result stays valid UTF-8 with
+/// probability ~3/4 (so that `&str` entry points are still reached), otherwise raw bytes.
+pub fn mutate_arg(rng: &mut Rng, a: &[u8]) -> Vec<u8> {
+    let specials: [&[u8]; 24] = [
+        b"", b"\0", b"\n", b"\r\n", b" ", b"\t", b"-", b"=", b":", b"/", b"..", b"{", b"}", b",", b"*", b"?", b"[", b"]",
+        b"<", b">", b">=", b"99999999999999999999", b"nb", b"@",
+    ];
+    let high: [&[u8]; 8] = [b"\xff", b"\xc3", b"\xe2\x82", b"\x80", b"\xa0", b"\x85", b"\xc3\xa9", b"\xf0\x9f\x92\x96"];
+    let as_str = std::str::from_utf8(a).ok();
+    let keep_utf8 = as_str.is_some() && rng.chance(3, 4);
+    // cut positions: char boundaries when keeping UTF-8
+    let cuts: Vec<usize> = match (keep_utf8, as_str) {
+        (true, Some(s)) => s.char_indices().map(|(i, _)| i).chain([s.len()]).collect(),
+        _ => (0..=a.len()).collect(),
+    };
+    let pick_cut = |rng: &mut Rng| -> usize { cuts[rng.below(cuts.len())] };
+    let mut out = a.to_vec();
+    match rng.below(12) {
+        0 => {
+            let c = pick_cut(rng);
+            out.truncate(c);
+        }
+        1 => {
+            let c = pick_cut(rng);
+            out = a[c..].to_vec();
+        }
+        2 => {
+            // duplicate a chunk
+            let (x, y) = (pick_cut(rng), pick_cut(rng));
+            let (lo, hi) = (x.min(y), x.max(y));
+            let chunk = a[lo..hi].to_vec();
+            out.splice(hi..hi, chunk);
+        }
+        3 => {
+            // splice: swap two halves
+            let c = pick_cut(rng);
+            out = [&a[c..], &a[..c]].concat();
+        }
+        4 | 5 => {
+            let c = pick_cut(rng);
+            let ins: &[u8] = *rng.pick::<&[u8]>(&specials);
+            out.splice(c..c, ins.iter().cloned());
+        }
+        6 => {
+            let c = pick_cut(rng);
+            if keep_utf8 {
+                out.splice(c..c, "é€𐀀\u{212A}\u{a0}".as_bytes().iter().cloned());
+            } else {
+                let ins: &[u8] = *rng.pick::<&[u8]>(&high);
+                out.splice(c..c, ins.iter().cloned());
+            }
+        }
+        7 => {
+            // delete a chunk
+            let (x, y) = (pick_cut(rng), pick_cut(rng));
+            let (lo, hi) = (x.min(y), x.max(y));
+            out.drain(lo..hi);
+        }
+        8 => {
+            // a very long run
+            let c = pick_cut(rng);
+            let ch = *rng.pick(&[b'a', b'9', b' ', b'-', b'\n', b'=']);
+            let n = *rng.pick(&[100usize, 1000, 8000]);
+            out.splice(c..c, std::iter::repeat(ch).take(n));
+        }
+        9 => {
+            // random printable noise
+            let n = rng.range(0, 20);
+            out = (0..n).map(|_| *rng.pick(b"ab-1.{}<>=*?[]:/ @\n+_nb")).collect();
+        }
+        10 => {
+            let n = rng.range(0, 12);
+            out = (0..n).map(|_| rng.next() as u8).collect();
+        }
+        _ => {
+            // digits blown up
+            let digits: Vec<u8> = (0..rng.range(19, 40)).map(|_| b'0' + rng.below(10) as u8).collect();
+            let c = pick_cut(rng);
+            out.splice(c..c, digits);
+        }
+    }
+    out
+}
+
+/// Fuzz stream for C17: mutations of the ops of every other generator of the cluster.
+/// Inherently exponential inputs are capped (brace groups, glob stars, total size).
+pub fn fuzz(pool: &[Op], n: usize, rng: &mut Rng, emit: &mut dyn FnMut(Op)) {
+    if pool.is_empty() {
+        return;
+    }
+    let mut made = 0;
+    let mut tries = 0;
+    while made < n && tries < n * 4 {
+        tries += 1;
+        let mut op = pool[rng.below(pool.len())].clone();
+        if op.args.is_empty() {
+            continue;
+        }
+        // arguments that are protocol control words (algorithm index, mode, read schedule,
+        // fault offset, metadata entry index) are left alone: only DATA is fuzzed
+        let data_args: Vec<usize> = match op.name.as_str() {
+            "digest.hash" => vec![3],
+            "scanindex.read" => vec![0],
+            "metadata.read" => (0..op.args.len()).filter(|i| i % 2 == 1).collect(),
+            "metadata.name" => vec![],
+            "distinfo.verify" => vec![0, 1, 2],
+            _ => (0..op.args.len()).collect(),
+        };
+        if data_args.is_empty() {
+            continue;
+        }
+        for _ in 0..rng.range(1, 3) {
+            let i = data_args[rng.below(data_args.len())];
+            op.args[i] = mutate_arg(rng, &op.args[i]);
+        }
+        let total: usize = op.args.iter().map(|a| a.len()).sum();
+        let braces = op.args.iter().map(|a| a.iter().filter(|c| **c == b'{').count()).max().unwrap_or(0);
+        let commas = op.args.iter().map(|a| a.iter().filter(|c| **c == b',').count()).max().unwrap_or(0);
+        let stars = op.args.iter().map(|a| a.iter().filter(|c| **c == b'*').count()).max().unwrap_or(0);
+        if total > 150_000 || braces > 10 || (braces > 0 && commas > 40) || stars > 8 {
+            continue;
+        }
+        emit(op);
+        made += 1;
     }
 }
 
